@@ -7,7 +7,7 @@ import random
 from .. import buffer_drv as B
 
 PROP = 'C08'
-READY = False
+READY = True
 PROPS_MODULE = 'C08'
 MODEL_TARGETS = ['theories/Case_C08.vo']
 HEADER = B.HEADER + '\nRequire Import Aiuti.Case_C08.'
@@ -60,10 +60,44 @@ def gen_search(tier, seed):
     rnd = random.Random(seed * 104729 + 808)
     return [B.rand_case(rnd, PROFILE) for _ in range(8000)] + B.word_cases(ALPHA, 6)[:20000]
 
-RULE = ''
-EXHAUSTIVE_NOTE = ''
-ASSUMPTIONS = []
-TRUSTED = []
-LEVEL_TEXT = ''
-LEVEL_NOTE = ''
-TECHNIQUE = ''
+RULE = ('cases = (timeout T in {8,100,1024} ticks, list of external events) run against the real '
+        'aiuti.asyncio.BufferAsyncCalls under the virtual-time loop: Submit (plain call / map of a list / map of an '
+        'iterator incl. failing part-way / await_ / amap with scripted yields, failure, end), Advance dt, '
+        'wait(cancel=True/False), FnOk / FnFail (the harness-owned buffered function parks until told), Shutdown; '
+        'observation per event = every FnStart (copy of the set, tick), FnEnd (ok, set re-read), WaitRet, DaemonEnded. '
+        'corpus: named debounce scenarios x 3 timeouts; exhaustive layer: every word of <=5 (quick) / <=6 (thorough) letters over '
+        '{plain, list, empty list, Advance T-1 / T+1 / 2T+1, FnOk, FnFail, wait(cancel=False)} + the arrival grid '
+        '(<=4 / <=5 submissions, gaps {0,T-1,T+1,2T+1}, 7 response modes of the function incl. durations 0 / <T / >T and '
+        'fail-then-ok, 3 timeouts); random layer: programs up to 30 events incl. exact-tie gaps (T), iterators, duplicates, '
+        'awaitables and async iterables.  Every program without Shutdown ends with the settle tail [FnOk; Advance T+1; FnOk].  '
+        'non-trivial = at least one call started, at least two submissions, no exact timer tie (decided by '
+        'Case_C08.nontrivial inside Coq); distinct = distinct (case, trace) pairs among those')
+EXHAUSTIVE_NOTE = ('all event words up to length 5 (quick) / 6 (thorough) over the 9-letter C08 alphabet at T=8, and the full '
+                   'arrival-gap grid for up to 4 / 5 submissions at T in {8,100,1024}')
+ASSUMPTIONS = ['single event loop, cooperative: between two quiescent points nothing external happens except the scripted event '
+               '(macro-step model, DESIGN §4); user code reacting inside the same loop iteration is outside the model',
+               'time is virtual: integer ticks of 2^-10 s, a timer fires when now >= deadline; exact ties between a '
+               'submission and the timer are run but not judged (counted as ties)',
+               'the sync-iterator helper thread of map() (to_async_iter, property C16) is collapsed to "immediately available"']
+TRUSTED = ['harness/buffer_drv.py + harness/vloop.py (virtual-time driver of the real BufferAsyncCalls) and '
+           'coq/theories/Case_Buffer.v, Case_C08.v (agree / ok)',
+           'modelled, not verified: asyncio.Queue (put_nowait/get/get_nowait/task_done/join), asyncio.Event, wait_for, gather, '
+           'Task.cancel/cancelling, call_soon_threadsafe FIFO, async generators']
+LEVEL_TEXT = ('BufferAsyncCalls is modelled step for step as an executable macro-step machine (coq/theories/Buffer.v: daemon '
+              'stages idle / gathering / timed read armed / loading one / function running, queue, join counter, event, waiters). '
+              'props/C08.v proves for ALL event lists (any producers, failures, waits, shutdown, foreign puts): serial_nonempty '
+              '(no call starts before the previous one ended, no empty set, consecutive call numbers; '
+              'serial_monitor_accepts_model is the same as acceptance by the monitor automaton), call_start_cause (a call starts only '
+              'when the quiet timer fired >= timeout after the latest submission, or a wait(cancel=True) forced it, or a slow producer '
+              'had kept the daemon waiting), armed_deadline_bounds; for all histories of immediately available producers: not_early; '
+              'and from EVERY reachable idle state: debounce_single_call_at_timeout (a burst with gaps < timeout causes no call '
+              'while it lasts and exactly one call, with the whole burst, exactly timeout after the last arrival).  Tied to /repo '
+              'by running the real class under a virtual-time loop on the enumerated / random event lists and comparing every '
+              'observation with the model inside Coq (vm_compute); the monitor Case_C08.ok re-decides serial / non-empty / '
+              'not-early / exact-burst on the implementation trace.')
+LEVEL_NOTE = ('trusted: Coq kernel + vm_compute; no axioms (Print Assumptions: closed under the global context); asyncio primitives '
+              'are modelled and validated only by the correspondence runs; harness/buffer_drv.py, harness/vloop.py; '
+              'coq/theories/Case_Buffer.v, Case_C08.v.  The forced-flush and kept-waiting disjuncts of call_start_cause are stated '
+              'on model state (waiters / daemon stage), with Examples showing each is needed.')
+TECHNIQUE = ('Coq proof (inductive invariants over event lists: serial automaton, join counter, timer deadline bounds, '
+             'burst induction) + differential correspondence under a virtual-time event loop evaluated by vm_compute')
